@@ -467,10 +467,12 @@ PROPS = {
     "C14": {
         "lean_modules": ["AvroProofs.C14"],
         "theorems": ["Avro.C14.cut_on_boundary", "Avro.C14.cut_inside_block", "Avro.C14.marker_corrupt", "Avro.C14.magic_corrupt",
-                     "Avro.C14.varint_cut_is_eof"],
+                     "Avro.C14.cut_inside_header", "Avro.C14.varint_cut_is_eof"],
         "partial": [
-            {"theorem": "cut inside the header / header metadata",
-             "excluded_by": "proved for the magic only; every other offset of the header is decided by the correspondence run (real Reader and model on every cut)"},
+            {"theorem": "Avro.C14.cut_inside_header",
+             "excluded_by": "nothing for the model reader: opening any strict prefix of the header fails, for every metadata layout and every offset (the header reader is "
+                            "framed). The embedded schema's JSON and the codec name are read from the metadata after that (C10 / C04's subject); the tie to the real Reader is "
+                            "the correspondence run on every cut of every generated file"},
         ],
         "harness": c14_runs,
         "projection": "okerr",
